@@ -12,9 +12,10 @@ def build_batch(programs, cmd="lang", tables=(), langs="python", ext=".py", time
     requested extra tables filtered to the program's unit."""
     files = {}
     for p in programs:
-        p["file"] = p["name"] + ext
-        p["hash"] = hashlib.sha256(p["src"].encode()).hexdigest()[:10]
-        files[p["file"]] = p["src"]
+        p.setdefault("file", p["name"] + ext)
+        text = p.get("file_src", p["src"])
+        p["hash"] = hashlib.sha256(text.encode()).hexdigest()[:10]
+        files[p["file"]] = text
     run = tengine.run_lian(files, cmd=cmd, langs=langs, timeout=timeout)
     info = dict(rc=run.rc, wall_s=round(run.wall, 1), log_tail=run.log[-1500:], cmd=cmd)
     try:
